@@ -95,14 +95,14 @@ InvViol(mode, obs) ==
   \* C04: skipped only if the most recent attempt for this fingerprint succeeded and generates exist
   (IF mode \in RunModes /\ SkippedIn(mode, obs) /\ ~(clean /\ GenOK)
    THEN {Viol("C04", (IF ~clean THEN "skipped-unsound" ELSE "skipped-with-missing-generates")
-                       \o ":" \o cfg.method \o ":last-attempt=" \o (IF o.valid THEN "ok" ELSE o.how) \o Class(o))} ELSE {})
+                       \o ":" \o cfg.method \o ":last-attempt=" \o (IF o.valid THEN (IF o.how = "force" THEN "ok-forced" ELSE "ok") ELSE o.how) \o Class(o))} ELSE {})
   \cup
   \* C05: idempotence, and re-execution after any change
   (IF mode \in RunModes /\ ~SkippedIn(mode, obs) /\ clean /\ GenOK /\ StatOK
    THEN {Viol("C05", "rerun-without-change:" \o cfg.method \o ":after-" \o o.how)} ELSE {})
   \cup
   (IF mode \in RunModes /\ SkippedIn(mode, obs) /\ o.valid /\ o.fp # FP
-   THEN {Viol("C05", "skipped-after-change:" \o cfg.method \o Class(o))} ELSE {})
+   THEN {Viol("C05", "skipped-after-change:" \o cfg.method \o (IF o.how = "force" THEN ":after-force" ELSE "") \o Class(o))} ELSE {})
   \cup
   (IF mode \in RunModes /\ SkippedIn(mode, obs) /\ clean /\ ~GenOK
    THEN {Viol("C05", "skipped-with-missing-generates:" \o cfg.method)} ELSE {})
